@@ -57,7 +57,8 @@ def floors(tier):
     n = N_DEF[tier] * N_VAR[tier]
     return {"evals": n * 3 // 4, "distinct": N_DEF[tier] * 3,
             "counters": {"children_reported": n * 3 // 4, "definitions_compared": N_DEF[tier] * 3 // 4,
-                         "digest_pairs_compared": N_DEF[tier] * (N_VAR[tier] - 2) * 10 * 3 // 4}}
+                         "digest_pairs_compared": N_DEF[tier] * (N_VAR[tier] - 2) * 10 * 3 // 4,
+                         "in_process_regenerations_compared": N_DEF[tier] * (N_VAR[tier] - 2) * 3 // 4}}
 
 
 def run_unit(unit, ctx):
@@ -122,6 +123,18 @@ def postprocess(units, results, tier, seed):
             R.inconclusive += 1
             continue
         R.stats.inc("definitions_compared")
+        # within one interpreter: generating again (same generator object, and a fresh generator with
+        # source rendered before header) must reproduce the first generation byte for byte
+        for p in plist:
+            dg = p["digests"]
+            R.stats.inc("in_process_regenerations_compared")
+            for a, b_ in (("cpp_ekf_source", "cpp_ekf_source_again_same_generator"),
+                          ("cpp_ekf_source", "cpp_ekf_source_second_generator_source_first"),
+                          ("cpp_ekf_header", "cpp_ekf_header_second_generator")):
+                if a in dg and b_ in dg and dg[a] != dg[b_]:
+                    R.add([K.V(f"nondeterministic:in-process:{b_}",
+                               f"definition {i}, variant {p['v']}: {b_} differs from the first generation in the same interpreter",
+                               defn=next((q["defn"] for q in plist if q.get("defn")), None))])
         ref = plist[0]
         defn = next((p["defn"] for p in plist if p.get("defn")), None)
         for p in plist[1:]:
